@@ -4,8 +4,9 @@
     sequence of open / (multi-)change / close notifications whose incremental changes denote
     text spans of the client's own document (positions computed by the client, texts with
     LF / CRLF line ends, no range end inside a CRLF pair), the server has not died and its
-    store equals the client's ([docs_track_client]); a change range within one line with
-    start <= end never panics whatever the positions (F5 fixed; the pinned conversion is
+    store equals the client's ([docs_track_client]); an ordered change range (start position not after the end
+    position, same line or not) never panics whatever the positions, hence the server survives
+    every history of ordered changes ([server_survives]; F5 fixed; the pinned conversion is
     refuted by a witness). Since every answer and every diagnostic is computed by a refresh
     from the store (and, for files not open, from disk), equality of stores is the core of
     history independence; the refresh itself, the diagnostics bookkeeping (F7) and liveness
@@ -26,10 +27,18 @@ Theorem C15_edit_applies_exactly : forall a b c w,
 Proof. exact edit_applies_exactly. Qed.
 Print Assumptions C15_edit_applies_exactly.
 
-Theorem C15_change_in_line_never_panics : forall doc l sc ec w,
-  (sc <= ec)%N -> apply_change doc (CIncr l sc l ec w) <> None.
-Proof. exact change_in_line_never_panics. Qed.
-Print Assumptions C15_change_in_line_never_panics.
+Theorem C15_change_never_panics : forall doc sl sc el ec w,
+  pos_le sl sc el ec -> apply_change doc (CIncr sl sc el ec w) <> None.
+Proof. exact change_never_panics. Qed.
+Print Assumptions C15_change_never_panics.
+
+(** the server process stays alive: any history of any length whose incremental changes are
+    ordered ranges (start not after end, as the protocol requires) -- at arbitrary positions,
+    beyond the line, beyond the text, inside surrogate or CRLF pairs, on any store -- never
+    reaches the panic state *)
+Theorem C15_server_survives : forall h, Forall ordered_event h -> forall s, run s h <> None.
+Proof. exact server_survives. Qed.
+Print Assumptions C15_server_survives.
 
 Theorem C15_mid_surrogate_crash_pinned_refuted :
   let doc := [128521; 97; 98; 99]%N in
